@@ -120,3 +120,27 @@ Theorem rule_window : forall r std_ti dst_ti last_time y0 n (l : list ztr) t b,
 Proof. exact rule_window_lemma. Qed.
 Print Assumptions rule_window.
 
+
+From CCTZ Require Import LoadSafe Source64 Source64InfoProofs.
+
+(* SOURCE-DERIVED TransOffset (Source64.v, regenerated from clang's AST of the current
+   src/time_zone_info.cc on every run; the struct is passed member by member, flat_trans maps a
+   model value to those arguments): it computes the calendar reading of the rule date for EVERY
+   year without overflow, for every date form and every time the footer parser can produce *)
+Theorem src64_trans_offset_matches_calendar : forall Y d time,
+  pdate_ok d = true -> -604799 <= time <= 604799 ->
+  flat_trans (is_leap_year64 Y) (posix_wd_of_days (days_from_civil Y 1 1)) (mkPT (Some d) (Some time))
+  = OK (date_yday d Y * 86400 + time).
+Proof. exact src64_trans_offset_matches_calendar_lemma. Qed.
+Print Assumptions src64_trans_offset_matches_calendar.
+
+Theorem src64_tie_trans_offset : forall leap wd pt r,
+  pt_ok pt -> -1000000 <= wd <= 1000000 ->
+  trans_offset leap wd pt = OK r -> flat_trans leap wd pt = OK r.
+Proof. exact s64_TransOffset_tie. Qed.
+Print Assumptions src64_tie_trans_offset.
+
+Theorem src64_tie_all_year_dst : forall p b,
+  ptz_ok p -> dst_abbr p <> [] -> all_year_dst p = OK b -> flat_allyear p = OK b.
+Proof. exact s64_AllYearDST_tie. Qed.
+Print Assumptions src64_tie_all_year_dst.
